@@ -64,6 +64,8 @@ func TestGolden(t *testing.T) {
 		{"field", []Spec{{Pkg: "p", Recv: "Acc", Name: "Sub"},
 			{Pkg: "p", Name: "Settle", As: "settled", Stmts: []string{"if a.Total > 0"}, Result: "a.Total"}}},
 		{"oracle2", []Spec{{Pkg: "p", Name: "First", Oracles: []string{"utf8.DecodeRuneInString"}}}},
+		{"arm", []Spec{{Pkg: "p", Name: "Route", As: "routeArm", Stmts: []string{"switch code"}},
+			{Pkg: "p", Name: "Route", As: "routeSeen", Stmts: []string{"if err != nil"}, Result: "seen"}}},
 		{"cond", []Spec{{Pkg: "p", Name: "Avg", As: "avgGuard", Stmts: []string{"if total == 0"}}}},
 	} {
 		text, missing := Generate(root(t), "X", c.specs)
